@@ -104,23 +104,32 @@ func c19R2(c *engine.Ctx) {
 	n := 0
 	for _, r := range engine.SuccessReturns(fn) {
 		n++
-		var eq *ssa.Call
+		var eq ssa.Instruction
+		var eqArgs []ssa.Value
 		engine.GuardedBy(r, func(k engine.Cmp) bool {
-			call := engine.CallOf(k.X)
-			b, isb := engine.ConstBool(k.Y)
-			if call != nil && engine.CalleeID(call.Common()) == "bytes.Equal" && isb && b && k.Op == token.EQL {
-				eq = call
-				return true
+			if k.Op != token.EQL || eq != nil || k.Via == nil {
+				return false
+			}
+			for _, a := range []ssa.Value{k.X, k.Y} {
+				if len(engine.FindCallBack(a, "crypto/hmac.New")) > 0 {
+					if k.Via != nil {
+						eq = k.Via
+					} else if in, ok := k.X.(ssa.Instruction); ok {
+						eq = in
+					}
+					eqArgs = []ssa.Value{k.X, k.Y}
+					return eq != nil
+				}
 			}
 			return false
 		})
 		if eq == nil {
-			c.Fail("C19.R2", "readServerHello/success-guard", r.Pos(), "success return is not guarded by a bytes.Equal digest comparison")
+			c.Fail("C19.R2", "readServerHello/success-guard", r.Pos(), "success return is not guarded by a digest comparison (bytes.Equal / hmac.Equal / ConstantTimeCompare) involving the HMAC")
 			continue
 		}
 		// one side: Sum of hmac.New(sha256.New, secret)
 		var mac *ssa.Call
-		for _, a := range eq.Common().Args {
+		for _, a := range eqArgs {
 			for _, h := range engine.FindCallBack(a, "crypto/hmac.New") {
 				mac = h
 			}
@@ -158,7 +167,7 @@ func c19R2(c *engine.Ctx) {
 		c.Check(okZero, "C19.R2", "readServerHello/digest-zeroed", r.Pos(), "the digest field of the packet must be overwritten with zeros before the packet is hashed")
 		// other side: the digest copied out of the packet before zeroing
 		okDigest := false
-		for _, a := range eq.Common().Args {
+		for _, a := range eqArgs {
 			if sl, ok := engine.Unwrap(a).(*ssa.Slice); ok {
 				if al, ok := sl.X.(*ssa.Alloc); ok {
 					for _, call := range engine.CallsTo(fn, false, "builtin.copy") {
